@@ -7,6 +7,11 @@ ALL = ["C%02d" % i for i in range(1, 21)]
 
 # id -> (level category, engine, technique, level text, level note, design ref)
 CLAIMED = {
+    "C08": ("model_checking", "S",
+            "stateless model checking (iterative context bounding, preemption bound 2 quick / 3 thorough) of the real subscriber built with the instrumentation overlay: scenarios S1 announcement burst, S2 burst with a failing request, S3 k publishers x concurrency limit, S4 announcements + explicit sync, S5 two explicit syncs with scoped hooks; scheduling points at every lock, atomic, channel operation, select, spawn, publisher request, hook call and observation",
+            "Every explored schedule is an execution of the real code; per publisher the hook log must split into batches that match the success events one to one, every ad up to the latest-synced one is reported exactly once, the last announced head is synced or has an error event, requests of one publisher never overlap, scoped hooks get exactly their own sync, concurrent announce-triggered syncs stay within the limit. Lost announcements show as the absence of a later event, which only quiescence detection (not a timeout) decides. Evidence reports per scenario the preemption bound that all shards completed.",
+            "Cooperative scheduling at synchronization operations only; priority selects in source order; bursts of 3, at most 3 publishers; quick tier is cut by an internal budget (exhaustive:false, bound completed reported).",
+            "DESIGN.md 6/C08, 13"),
     "C16": ("model_checking", "S",
             "stateless model checking of the real announce.Receiver built with the instrumentation overlay (mutex shim, scheduling points at every lock, channel operation and select): all interleavings, up to 2 (quick) / 3 (thorough) preemptions, of every set of 2-3 threads x 1-2 operations containing a Close (459 configurations quick); plus every operation sequence of length <=4/5 run one call per goroutine in a synctest bubble and compared at quiescence with a reference model (returned value / still blocked)",
             "Every explored schedule is an execution of the real receiver (traces_validated_against_impl = executions); 'a call never returns' is decided by quiescence in the bubble (no enabled thread, caller parked on a lock whose predicate is false), not by a timeout; the reference model says which calls may wait and what each returns. The schedule and return-path dependence (which return path an earlier call took) is exactly what two scripted close tests cannot cover.",
@@ -79,7 +84,7 @@ CLAIMED = {
             "DESIGN.md 6/C20"),
 }
 
-NOT_YET = "check not built yet in this session (planned, see DESIGN.md section 6)"
+NOT_YET = "not inapplicable: the check is designed (DESIGN.md section 6) but not built yet; engine S/H it needs exists (see C08, C16)"
 
 def main():
     checks = []
